@@ -58,7 +58,7 @@ def run(ck, models, tier):
                     ok = val.op == "gamma" and val.args[1].op == "fnaddr" and val.args[2].op == "fnaddr"
                     why = "word loaded into %s is %s (address of one of two crate functions selected by the requested value; C10 checks which)" % (t["reg"], fmt(val, 4))
                 ldr = [i for i in sim["executed"] if i["mn"] == "ldr_lit"]
-                if ldr and "r%d" % ldr[0]["rt"] != t["reg"]:
+                if ldr and t["reg"] != "pc" and "r%d" % ldr[0]["rt"] != t["reg"]:      # reg "pc": the load itself is the branch
                     ok = False
                     why += "; load and branch use different registers"
             ck.ob("R16.1", base + "/literal-hit", tm.target, ok, "class %s: executes %s; %s" % (cname, mn, why), where(r.ev))
